@@ -211,6 +211,32 @@ func uuidsFromDir(dir string) (uuids map[string]bool, err error) {
 	return
 }
 
+// objectsFromDir lists the objects stored in dir, filename tells the name
+// of the file an object identified by a given uuid is stored in. Any
+// other entry (other extension, directory...) is not an object file
+func objectsFromDir(dir string, filename func(string) string) (uuids map[string]bool, err error) {
+	var entries []os.DirEntry
+
+	if entries, err = os.ReadDir(dir); err != nil {
+		return
+	}
+
+	uuids = make(map[string]bool)
+	for _, entry := range entries {
+		uuid, _ := uuidExt(entry.Name())
+
+		if !uuidRegexp.MatchString(uuid) {
+			continue
+		}
+		if !entry.Type().IsRegular() || entry.Name() != filename(uuid) {
+			continue
+		}
+		uuids[uuid] = true
+	}
+
+	return
+}
+
 func isFileAndExist(path string) bool {
 	stat, err := os.Stat(path)
 	// stat is nil whatever the error is (not only when path does not exist)
